@@ -37,6 +37,9 @@ inductive ObsEq : Val → Val → Prop
   | ndarraySame (dt : String) (shape : List Nat) (st : List Int) (o : Int) (b : List Nat) :
       ObsEq (.ndarray dt shape st o b) (.ndarray dt shape st o b)
   | objarr (shape : List Nat) (elems : List (List Nat)) : ObsEq (.objarr shape elems) (.objarr shape elems)
+  | digest {v w : Val} : ObsEq v w → ObsEq (.digest v) (.digest w)
+  | sortedTokens {xs zs ys : List Val} : ObsEqL xs zs → zs.Perm ys → ObsEq (.sortedTokens xs) (.sortedTokens ys)
+  | pickled (k : String) (p : Val) : ObsEq (.pickled k p) (.pickled k p)
 inductive ObsEqL : List Val → List Val → Prop
   | nil : ObsEqL [] []
   | cons {x y : Val} {xs ys : List Val} : ObsEq x y → ObsEqL xs ys → ObsEqL (x :: xs) (y :: ys)
@@ -44,6 +47,28 @@ inductive ObsEqP : List (Val × Val) → List (Val × Val) → Prop
   | nil : ObsEqP [] []
   | cons {k k' v v' : Val} {r r' : List (Val × Val)} :
       ObsEq k k' → ObsEq v v' → ObsEqP r r' → ObsEqP ((k, v) :: r) ((k', v') :: r')
+end
+
+mutual
+theorem ObsEq.rfl' : ∀ v : Val, ObsEq v v
+  | .int _ => .int _ | .bool _ => .bool _ | .float _ => .float _ | .str _ => .str _ | .bytes _ => .bytes _
+  | .none => .none | .atom _ => .atom _ | .hash _ _ => .hash _ _
+  | .list xs => .list (ObsEqL.rfl' xs)
+  | .tuple xs => .tuple (ObsEqL.rfl' xs)
+  | .dict kvs => .dict (ObsEqP.rfl' kvs) (.refl _)
+  | .set xs => .set (ObsEqL.rfl' xs) (.refl _)
+  | .arr0 _ _ => .arr0 _ _
+  | .ndarray _ _ _ _ _ => .ndarraySame _ _ _ _ _
+  | .objarr _ _ => .objarr _ _
+  | .digest v => .digest (ObsEq.rfl' v)
+  | .sortedTokens xs => .sortedTokens (ObsEqL.rfl' xs) (.refl _)
+  | .pickled _ _ => .pickled _ _
+theorem ObsEqL.rfl' : ∀ xs : List Val, ObsEqL xs xs
+  | [] => .nil
+  | x :: xs => .cons (ObsEq.rfl' x) (ObsEqL.rfl' xs)
+theorem ObsEqP.rfl' : ∀ xs : List (Val × Val), ObsEqP xs xs
+  | [] => .nil
+  | (k, v) :: r => .cons (ObsEq.rfl' k) (ObsEq.rfl' v) (ObsEqP.rfl' r)
 end
 
 theorem ObsEqL.of_all₂ {xs ys : List Val} (h : All₂ ObsEq xs ys) : ObsEqL xs ys := by
